@@ -180,3 +180,42 @@ def divergence_over_several_variables(S):
     J = S.call(DO + "jac", out, *vs).val
     S.ensure("jac-shape", J.rank == 3 and J.shape[1].concrete() == m and J.shape[2].concrete() == m)
     S.forall("jac-columns-follow-the-order-of-the-variables", Tensor(J), lambda q: z3.And([zreal(J.at([q[0], (i,), (k,)])) == jets.deriv_symbol(U[i], k)(*ins(q[0])) for i in range(m) for k in range(m)]))
+
+
+@scenario("C03", [DO + "grad", DO + "laplacian", DO + "div", DO + "normal_derivative", DO + "partial"], configs=["dx=2", "dx=3"], bounded=BOUND + "; batch shape [functions, points] (the DeepONet layout)")
+def operators_on_functions_by_points_batches(S):
+    """the operators that accept any batch shape (they address the component axis as the LAST axis): on inputs
+    x[b, n, :] and outputs u[b, n, c] = U_c(x[b, n, :]) every result entry (b, n) is the analytic expression at the
+    same (b, n)"""
+    dx = int(S.cfg[-1])
+    B, N = S.int("B", 1), S.int("N", 1)
+    x = S.tensor("x", [B, N, dx])
+    x.set_attr(S.I, "requires_grad", True)
+    ins = lambda b, n: [zreal(x.val.at([b, n, (k,)])) for k in range(dx)]
+    U = z3.Function("U_0", *([z3.RealSort()] * dx + [z3.RealSort()]))
+    V = [z3.Function(f"V_{c}", *([z3.RealSort()] * dx + [z3.RealSort()])) for c in range(dx)]
+    u = Tensor(STensor([core.dim_of(B), core.dim_of(N), Dim([])], lambda idx: U(*ins(idx[0], idx[1])), "real", "u"))
+    v = Tensor(STensor([core.dim_of(B), core.dim_of(N), Dim([dx])], lambda idx: core.select_comp(idx[2][0], dx, [(lambda f=f: f(*ins(idx[0], idx[1]))) for f in V]), "real", "v"))
+    D = lambda f, k, b, n: jets.deriv_symbol(f, k)(*ins(b, n))
+    DD = lambda f, k, l, b, n: jets.deriv_symbol(jets.deriv_symbol(f, k), l)(*ins(b, n))
+    gr = S.call(DO + "grad", u, x).val
+    ok = gr.rank == 3 and gr.shape[2].concrete() == dx
+    S.ensure("grad-shape-functions-points-dx", ok and gr.shape[0].size_term() == zint(B) and gr.shape[1].size_term() == zint(N))
+    if ok:
+        S.forall("grad-entry-b-n-is-the-gradient-at-b-n", Tensor(gr), lambda q: zreal(gr.at(q)) == core.select_comp(q[2][0], dx, [(lambda k=k: D(U, k, q[0], q[1])) for k in range(dx)]))
+    lap = S.call(DO + "laplacian", u, x).val
+    ok = lap.rank == 3 and lap.shape[2].is_one
+    S.ensure("laplacian-shape-functions-points-1", ok and lap.shape[0].size_term() == zint(B) and lap.shape[1].size_term() == zint(N))
+    if ok:
+        S.forall("laplacian-entry-b-n-is-the-sum-of-pure-second-derivatives-at-b-n", Tensor(lap), lambda q: zreal(lap.at(q)) == sum((DD(U, k, k, q[0], q[1]) for k in range(dx)), z3.RealVal(0)))
+    dv = S.call(DO + "div", v, x).val
+    ok = dv.rank == 3 and dv.shape[2].is_one
+    S.ensure("div-shape-functions-points-1", ok and dv.shape[0].size_term() == zint(B) and dv.shape[1].size_term() == zint(N))
+    if ok:
+        S.forall("div-entry-b-n-is-the-trace-of-the-jacobian-at-b-n", Tensor(dv), lambda q: zreal(dv.at(q)) == sum((D(V[k], k, q[0], q[1]) for k in range(dx)), z3.RealVal(0)))
+    nrm = S.tensor("normals", [B, N, dx])
+    nd = S.call(DO + "normal_derivative", u, nrm, x).val
+    ok = nd.rank == 3 and nd.shape[2].is_one
+    S.ensure("normal-derivative-shape", ok)
+    if ok:
+        S.forall("normal-derivative-entry-b-n", Tensor(nd), lambda q: zreal(nd.at(q)) == sum((D(U, k, q[0], q[1]) * zreal(nrm.val.at([q[0], q[1], (k,)])) for k in range(dx)), z3.RealVal(0)))
